@@ -3,6 +3,7 @@ package engine
 import (
 	"bytes"
 	"fmt"
+	"strings"
 	"testing"
 )
 
@@ -231,5 +232,5 @@ func (o *c14Oracle) AfterRun(w *World, op *Op, res *RunResult) {
 
 // knownC01Sig: the DN re-encoding finding belongs to C01; other checks that reuse the chain verifier do not report it.
 func knownC01Sig(sig string) bool {
-	return len(sig) > 16 && sig[:16] == "issuer-dn-bytes:" && (len(sig) > 31 && sig[16:31] == "foreign-issuer:")
+	return strings.HasPrefix(sig, "issuer-dn-reencoded:foreign-issuer:")
 }
